@@ -4,3 +4,13 @@
 pub open spec fn K_SD() -> Seq<char> { "_sd"@ }
 pub open spec fn K_DOTS() -> Seq<char> { "..."@ }
 pub open spec fn K_SD_ALG() -> Seq<char> { "_sd_alg"@ }
+
+// ---- shared JSON-view helpers ----
+spec fn is_placeholder(e: J) -> bool { e is Obj && j_has(e->Obj_0, K_DOTS()) }
+proof fn lemma_j_idx(s: Seq<(Seq<char>, J)>, k: Seq<char>)
+    ensures j_has(s, k) ==> 0 <= j_idx(s, k) < s.len() && s[j_idx(s, k)].0 == k,
+        j_idx(s, k) >= -1,
+    decreases s.len()
+{
+    if s.len() > 0 && s[0].0 != k { lemma_j_idx(s.drop_first(), k); }
+}
